@@ -3,7 +3,9 @@ package sim
 import (
 	"bytes"
 	"crypto/ed25519"
+	"crypto/rsa"
 	"fmt"
+	"math/big"
 	"os"
 
 	cose "github.com/veraison/go-cose"
@@ -150,6 +152,18 @@ func scenarioC18(r *Run) {
 			sharedKey = &k
 		}
 	}
+	if t.Bool(1, 6, "c18.key.literal") {
+		// a key the application wrote down itself, with the Go key types as
+		// parameter values (ed25519.PublicKey is a named byte slice)
+		ek := poolEd[t.Choose(len(poolEd), "c18.key.literal.k")]
+		pub := ek.Pub.(ed25519.PublicKey)
+		lit := &cose.Key{Type: cose.KeyTypeOKP, Params: map[any]any{cose.KeyLabelOKPCurve: cose.CurveEd25519, cose.KeyLabelOKPX: pub}}
+		if t.Bool(1, 2, "c18.key.literal.priv") {
+			lit.Params[cose.KeyLabelOKPD] = ek.Priv.(ed25519.PrivateKey).Seed()
+		}
+		sharedKey = lit
+		r.Probe("shared-key-struct-literal-with-named-types")
+	}
 	signKey := pickCheapKey(t)
 	sharedSigner := r.signerFor(signKey, false)
 	sharedSignVerifier := r.verifierFor(signKey, false)
@@ -163,6 +177,22 @@ func scenarioC18(r *Run) {
 		})
 		if err != nil {
 			envelope = nil
+		}
+	}
+	envVerifier := sharedSignVerifier // the envelope above was made with the signer of this key
+	if t.Bool(1, 8, "c18.signer.barersa") {
+		// an RSA key assembled from its components (JWK, HSM export): no CRT
+		// values precomputed; every task signs through the one Signer made
+		// from it
+		src := poolRSA[t.Choose(2, "c18.signer.barersa.k")]
+		pk := src.Priv.(*rsa.PrivateKey)
+		bare := &rsa.PrivateKey{PublicKey: rsa.PublicKey{N: new(big.Int).Set(pk.N), E: pk.E}, D: new(big.Int).Set(pk.D), Primes: []*big.Int{new(big.Int).Set(pk.Primes[0]), new(big.Int).Set(pk.Primes[1])}}
+		var bs cose.Signer
+		var berr error
+		r.Lib(func() { bs, berr = cose.NewSigner(cose.Algorithm(src.Alg), bare) })
+		if berr == nil {
+			signKey, sharedSigner, sharedSignVerifier = src, bs, r.verifierFor(src, false)
+			r.Probe("shared-signer-over-bare-rsa-key")
 		}
 	}
 	// ---- operation menu (closures over shared values only; nothing below
@@ -333,7 +363,7 @@ func scenarioC18(r *Run) {
 		menu = append(menu, func() c18Op {
 			return c18Op{"VerifyHashEnvelope", func() c18Result {
 				return guard(func() ([]byte, error) {
-					m, err := cose.VerifyHashEnvelope(sharedSignVerifier, envelope)
+					m, err := cose.VerifyHashEnvelope(envVerifier, envelope)
 					if err != nil {
 						return nil, err
 					}
